@@ -371,6 +371,18 @@ func hostileMuts(file []byte, spans []fieldSpan) []Mut {
 				Mut{Kind: "splice", Pos: s.From, To: s.To, Data: h, FixCRC: true, Note: "hostile " + s.Name})
 		}
 	}
+	// a huge length whose content is absent altogether (length field and content replaced by the
+	// length alone): whatever follows must not be taken for the rest of the entry
+	for i, s := range spans {
+		if !segs[s.Seg] || (s.Name != "typelen" && s.Name != "dellen") || i+1 >= len(spans) {
+			continue
+		}
+		content := spans[i+1] // "type" after "typelen", "blob" after "dellen"
+		for _, h := range hostileVarints[:9] {
+			ms = append(ms, Mut{Kind: "splice", Pos: s.From, To: content.To, Data: h, Note: "hostile " + s.Name + ", content dropped"},
+				Mut{Kind: "splice", Pos: s.From, To: content.To, Data: h, FixCRC: true, Note: "hostile " + s.Name + ", content dropped"})
+		}
+	}
 	// hostile lengths inside the deleted-set blob (the bitmap library's header)
 	for _, s := range spans {
 		if s.Name == "blob" && s.To-s.From >= 8 && segs[s.Seg] {
